@@ -39,6 +39,8 @@ def main():
     args = sys.argv[1:]
     tier = "quick"
     allc = False
+    outp = None
+    rows = []
     names = []
     i = 0
     while i < len(args):
@@ -48,6 +50,9 @@ def main():
         elif args[i] == "--all-checks":
             allc = True
             i += 1
+        elif args[i] == "--out":
+            outp = args[i + 1]
+            i += 2
         else:
             names.append(args[i])
             i += 1
@@ -85,10 +90,20 @@ def main():
                 if pid == meta["property"] and status != "caught":
                     bad += 1
             print("%-28s demo: clean=%s seeded=%s | %s" % (name, clean_demo, seeded_demo, "; ".join("%s %s %s" % x for x in res)), flush=True)
+            rows.append((name, meta, clean_demo, seeded_demo, res))
         finally:
             sh(["git", "-C", REPO, "worktree", "remove", "--force", tree])
             shutil.rmtree(tmp, ignore_errors=True)
     print("%d seeded changes, %d not caught by their property's check" % (len(names), bad))
+    if outp:
+        with open(outp, "w") as f:
+            f.write("# Seeded changes (written by independent sub-agents) against the registered checks, %s tier%s\n\n" % (tier, ", corpus disabled" if os.environ.get("VF_NO_CORPUS") else ""))
+            f.write("| seeded change | property | what was changed | needs | demo exit clean/seeded | check | first signature reported |\n|---|---|---|---|---|---|---|\n")
+            for name, meta, cd, sd, res in rows:
+                for pid, status, first in res:
+                    f.write("| %s | %s | %s | %s | %s / %s | %s | %s |\n" % (name, pid, str(meta.get("summary", "")).replace("|", "/")[:300], str(meta.get("needs", "")).replace("|", "/")[:300],
+                                                                       cd, sd, status, first.split(":")[0].replace("|", "/")))
+            f.write("\n%d seeded changes, %d not caught by their property's check\n" % (len(names), bad))
     return 1 if bad else 0
 
 
